@@ -32,6 +32,13 @@ check("C15", "same state graph and traces as C13, judged on the lookup/probe cla
       "section is probed with present/absent/other-case/int/negative-int/slice keys through `in`, [], attribute access and "
       "get(); TLC evaluates the intent operators (Lookup, PyPos, PySlice) on the logged state and compares.", TRUSTED,
       "DESIGN.md 4 C15")
+check("C14", "TLA+ list model (Curves/CurvesAlgo, two LASFile objects) checked by TLC to its fixpoint; transitions replayed "
+      "on real LASFile objects; random edit histories validated by TLC against Trace_Curves",
+      "Model checking + trace validation: the curve-editing algorithm (insert/pop, suffix renumbering, set_data renaming) "
+      "is model-checked against a plain list model for all reachable pairs of LASFiles within the bounds; each explored "
+      "transition is replayed on real objects with keys/values/items/index/data/int/mnemonic views projected after "
+      "every step and compared by TLC with the list model, and the other LASFile must stay unchanged (frame).", TRUSTED,
+      "DESIGN.md 4 C14")
 
 
 def main():
